@@ -97,6 +97,10 @@ func CachedBlockstore(
 
 	if opts.HasTwoQueueCacheSize > 0 {
 		cbs, err = newTwoQueueCachedBS(ctx, cbs, opts.HasTwoQueueCacheSize)
+		if err != nil {
+			// do not build the Bloom layer on top of a nil cache
+			return nil, err
+		}
 	}
 	if opts.HasBloomFilterSize != 0 {
 		// *8 because of bytes to bits conversion
